@@ -13,7 +13,7 @@ class P:
     """Static description of one property's check."""
 
     def __init__(self, pid, family, driver, mc, traces, level, rule, assumptions, sig_reset=(), sig_event=(),
-                 mutate=None, design_ref="", technique="", race=False, harness_timeout=3000, post=None,
+                 mutate=None, design_ref="", technique="", race=False, harness_timeout=1500, post=None,
                  sig_fn=None):
         self.pid = pid
         self.family = family          # spec/<family>
@@ -171,7 +171,8 @@ def run(pid, tier, seed):
                            "violated": r.violated})
         # 3. trace validation
         trace_files = {s: out + s for (s, _, _) in p.traces}
-        if p.traces:
+        aborted = isinstance(summary.get("extra"), dict) and summary["extra"].get("aborted")
+        if p.traces and not aborted:
             _validate(p, v, wd, trace_files, seed, coverage)
         # direct observations (crash / hang / leak) made by the driver on the real code
         for d in summary.get("direct") or []:
@@ -325,3 +326,30 @@ reg(P("C16", "plugins", "c16",
       sig_reset=("mode",), sig_event=("ev",),
       mutate=_c16_mutate, design_ref="DESIGN.md §6 C16",
       technique="TLC refinement check ClusterImpl => Cluster + TLC trace validation of recorded attempts"))
+
+
+def _c18_mutate(rec):
+    if rec.get("ev") == "pick":
+        rec["idx"] = 0
+        return rec
+    return None
+
+
+_LB_Q = [("LoadBalanceImplMC", "LoadBalanceImpl_%s.cfg" % c, 600) for c in ("rr", "rrconc", "wrr", "nginx", "nginxfail")]
+_LB_T = [("LoadBalanceImplMC", "LoadBalanceImpl_%s.cfg" % c, 1500) for c in ("rr", "rrconc", "wrr_big", "nginx_big", "nginxfail_big")]
+reg(P("C18", "plugins", "c18",
+      mc={"quick": _LB_Q, "thorough": _LB_T},
+      traces=[("", "LoadBalanceTrace", "LoadBalanceTrace.cfg")],
+      level="model_checking",
+      rule="cases = every weight vector up to the tier's bound (n<=3,w<=4 quick; n<=4,w<=5 thorough) x the four weighted "
+           "balancers run failure-free for 2.5 cycles; 1..6 servers x the three unweighted ones; seeded histories of "
+           "10-40 operations (ok/err/panic calls, calls held in flight and finished in any order, quiescent "
+           "reconfiguration, quiescence probes) for all seven; 16 concurrent pickers x 50 calls; non-trivial = more "
+           "than one server or a history with failures",
+      assumptions=["per-cycle proportions and least-active choices are judged on sequential histories (the harness "
+                   "holds calls in flight); under concurrency only validity of the pick and counter conservation",
+                   "the smooth weighted round-robin is judged as the nginx algorithm over effective weights, ties free",
+                   "in-flight counters are read through a verif-only accessor"],
+      sig_reset=("algo", "conc"), sig_event=("ev",),
+      mutate=_c18_mutate, design_ref="DESIGN.md §6 C18",
+      technique="TLC model checking of the transcribed algorithms (cycle exactness, refinement) + TLC trace validation of real picks"))
